@@ -199,6 +199,11 @@ class CompleteEnv(dict):
     def __missing__(s, k):
         return Fr(0)
 
+    def arr(s, x):
+        """serialisable complex array: dict(re=..., im=...)"""
+        v = np.asarray(s.val(np.asarray(x, dtype=object)))
+        return dict(re=np.real(v).tolist(), im=np.imag(v).tolist() if np.iscomplexobj(v) else None)
+
     def val(s, x):
         """concrete python number for a SymC / array of SymC under this env"""
         if isinstance(x, np.ndarray):
@@ -211,6 +216,14 @@ class CompleteEnv(dict):
             re, im = x.evalf(s)
             return float(re) if im == 0 else complex(float(re), float(im))
         return x
+
+
+def unarr(d):
+    """inverse of CompleteEnv.arr"""
+    a = np.array(d["re"], dtype=float)
+    if d.get("im") is not None:
+        a = a + 1j * np.array(d["im"], dtype=float)
+    return a
 
 
 class Case:
